@@ -419,7 +419,10 @@ class _Run:
                 return Val(imm=True)
             if e.attr in self.eff.props and not (isinstance(e.value, ast.Name) and e.value.id in LIB_ROOTS):
                 return self.apply_summary(self.eff.props[e.attr].qual, [b], e)
-            v = elem(b)
+            if isinstance(e.value, ast.Name) and e.value.id == "self" and b.self_o == frozenset(["PARAM:self"]):
+                v = origin_val("FIELD:self." + e.attr)      # first-level field sensitivity for the receiver
+            else:
+                v = elem(b)
             if e.attr in self.eff.immutable_fields:
                 v = Val(v.self_o, v.elem_o, v.cont_o, True)
             if b.callee and b.callee in self.ix.classes:
@@ -650,6 +653,12 @@ class _Run:
                     self.mutate(tgt, node, "call of %s, which mutates %sits parameter %s (%s)" % (q, "something inside " if inner else "", b[6:], why), via=q)
             elif b.startswith("GLOBAL:"):
                 self.mutate(Val([o]), node, "call of %s, which mutates %s%s (%s)" % (q, "something inside " if inner else "", b[7:], why), via=q)
+            elif b.startswith("FIELD:self."):
+                r = bind.get("PARAM:self")
+                if r is not None and r.self_o == frozenset(["PARAM:self"]):
+                    self.mutate(Val([o]), node, "call of %s, which mutates %s%s (%s)" % (q, "something inside " if inner else "", b[6:], why), via=q)
+                elif r is not None:
+                    self.mutate(Val(r.below), node, "call of %s, which mutates field %s of its receiver (%s)" % (q, b[11:], why), via=q)
         for g in s.reads_globals:
             self.reads_globals.add(g)
         if s.ret is None:
@@ -666,6 +675,14 @@ class _Run:
                         out |= bind[b].below
                     else:
                         out |= bind[b].self_o
+                elif b.startswith("FIELD:self."):
+                    r = bind.get("PARAM:self")
+                    if r is not None and r.self_o == frozenset(["PARAM:self"]):
+                        out.add(o)
+                    elif r is not None:
+                        out |= r.below
+                    else:
+                        out.add(FRESH)
                 else:
                     out.add(o)
             return out
